@@ -43,6 +43,9 @@ type Server struct {
 	// SignCreate produces the CreateSessionResponse signature; nil = the correct one (sc.NewSessionSignature).
 	SignCreate func(c *Conn, req *ua.CreateSessionRequest) (sig []byte, alg string, cert []byte)
 
+	// CreateSig, when set, decides the whole ServerSignature of the CreateSessionResponse (may return nil) and the certificate.
+	CreateSig func(c *Conn, req *ua.CreateSessionRequest) (sd *ua.SignatureData, cert []byte)
+
 	mu     sync.Mutex
 	conns  []*Conn
 	events []Event
@@ -275,13 +278,17 @@ func (s *Server) Default(c *Conn, r ua.Request) ua.Response {
 				return Fault(req, ua.StatusBadInternalError)
 			}
 		}
+		sd := &ua.SignatureData{Signature: sig, Algorithm: alg}
+		if s.CreateSig != nil {
+			sd, cert = s.CreateSig(c, req)
+		}
 		n := atomic.AddInt32(&s.sessions, 1)
 		return &ua.CreateSessionResponse{
 			ResponseHeader:        Hdr(req, ua.StatusOK),
 			SessionID:             ua.NewNumericNodeID(1, uint32(1000+n)),
 			AuthenticationToken:   ua.NewNumericNodeID(1, uint32(2000+n)),
 			RevisedSessionTimeout: 60000,
-			ServerSignature:       &ua.SignatureData{Signature: sig, Algorithm: alg},
+			ServerSignature:       sd,
 			ServerCertificate:     cert,
 			ServerNonce:           nonce,
 			ServerEndpoints:       []*ua.EndpointDescription{},
